@@ -181,7 +181,7 @@ Proof. intros Hm. unfold act_toggle, act_toggle_all, act_select_all. rewrite Hm.
 
 (** every other operation leaves the selection alone *)
 Definition is_sel_action (o : op) : bool :=
-  match o with Toggle | ToggleAll | SelectAll | DeselectAll => true | _ => false end.
+  match o with Toggle | ToggleAll | SelectAll | DeselectAll | SelectRaw _ _ _ | SelectMatched _ _ _ => true | _ => false end.
 
 Lemma move_keeps_selected s d s' : move_line_cursor s d = Some s' -> selected s' = selected s /\ multi s' = multi s.
 Proof.
@@ -226,6 +226,10 @@ Proof.
       apply orb_false_iff in Eg as [Eg _]. apply negb_false_iff in Eg.
       split; [apply (fold_insert_spec (run s) (items s) (selected s) W) | cbn; congruence].
     + inversion E; subst. split; cbn; auto.
+    + inversion E; subst. unfold act_select_raw_item. destruct (multi s) eqn:Em; cbn [negb]; [|split; [exact W | intros _; apply Hs; reflexivity]].
+      split; [apply insert_spec, W | cbn; congruence].
+    + inversion E; subst. unfold act_select_raw_item. destruct (multi s) eqn:Em; cbn [negb]; [|split; [exact W | intros _; apply Hs; reflexivity]].
+      split; [apply insert_spec, W | cbn; congruence].
   - destruct (other_ops_keep_selected s o s' Ha E) as [H1 H2]. unfold SelInv. rewrite H1, H2. exact HI.
 Qed.
 
